@@ -178,7 +178,7 @@ def distance_cases(ctx):
 
 def pipeline_cases(ctx, tab):
     rng = ctx.rng
-    for k in range(ctx.n(6, 40)):
+    for k in range(ctx.n(6, 200)):
         fmt = rng.choice(["klmGac", "podGac", "klmLac", "podLac"])
         n = 8 if fmt.endswith("Lac") else 20
         if fmt.startswith("klm"):
